@@ -42,8 +42,13 @@
     lower-level ones, so a trapped thread would contradict one of them). The only way a thread
     of the model can die is an index outside the metadata buffers (C18).
 
+  * `k2_online_race_panics` — **a second refutation** (known finding K2): a free into an offline
+    tree that races with `change_tree(Online)` panics in the counter assertion of `Tree::put`
+    (the frames of the free are counted once by the Online fetch and once by the free itself);
+    the co-simulation reproduces it on the real threads (scenario kind 6).
+
   PARTIAL: for partial frees of huge allocations (K1, refuted) and `change_tree` under
-  interleavings panic-freedom is not a theorem. Explored by the trace co-simulation (preemption-bounded DFS, random schedules, freeze
+  interleavings (K2, refuted for Online) panic-freedom is not a theorem. Explored by the trace co-simulation (preemption-bounded DFS, random schedules, freeze
   experiments), with panic capture and the "free of a held block succeeded" oracle; the event
   trace of every explored schedule is replayed on the Lean interleaving semantics.
 -/
@@ -76,6 +81,31 @@ theorem k1_spin_panics :
 theorem k1_sequential_ok :
     runSched [Lower.put gK1 Gen.retries 0 0, Lower.put gK1 Gen.retries 1 0] mK1
       [0, 0, 0, 0, 0, 0, 1, 1, 1, 1] = none := by
+  decide
+
+/-! ### K2: a free into an offline tree racing with `change_tree(Online)` -/
+
+/-- two trees of 64 frames, one class with one slot -/
+def cK2 : Cfg := { geom := ⟨6, 1⟩, frames := 128, classes := [(0, 1)], dflt := 0, policy := simplePolicy 64 }
+/-- frame 69 (tree 1) is allocated, tree 1 was taken offline (counter 0, 63 frames hidden) -/
+def mK2 : Mem := ⟨#[0#64, 32#64], #[64, 63], #[⟨64, false, 0⟩, ⟨0, false, 0⟩], #[LTree.none]⟩
+
+/-- **K2 (refutation).** Thread 0 frees frame 69: after `Lower::put` (5 accesses: the frame is free
+    and counted in the table entry) it is preempted before `Trees::put`. Thread 1 brings tree 1
+    online: it reads the lower counters (64, the freed frame included) and stores them as the
+    tree counter. Thread 0 resumes and adds its frame a second time: `Tree::put` asserts
+    `free <= TREE_FRAMES` and the free of a held block panics. -/
+theorem k2_online_race_panics :
+    runSched [put cK2 69 ⟨0, 0, none⟩, changeTree cK2 (some 1) none 0 none (some .online)] mK2
+      [0, 0, 0, 0, 0, 1, 1, 1, 1, 1, 0, 0] = some "assertion failed: free <= TREE_FRAMES" := by
+  decide
+
+/-- one after the other, in either order, both calls return -/
+theorem k2_sequential_ok :
+    runSched [put cK2 69 ⟨0, 0, none⟩, changeTree cK2 (some 1) none 0 none (some .online)] mK2
+      [0, 0, 0, 0, 0, 0, 0, 1, 1, 1, 1, 1, 1] = none ∧
+    runSched [put cK2 69 ⟨0, 0, none⟩, changeTree cK2 (some 1) none 0 none (some .online)] mK2
+      [1, 1, 1, 1, 1, 1, 0, 0, 0, 0, 0, 0, 0, 0] = none := by
   decide
 
 theorem seq_no_panic_lower (c : Cfg) (ok : GeomOk16 c.geom) (m : Mem) (inv : LowerInv c m) (retries frame order : Nat)
